@@ -219,7 +219,12 @@ def k_col(recv, mutable):
             return "false"
         a, b = acc[0][2], acc[0][3]
         want_end = f"(+ {d['col']} (* (- {d['R']} 1) {d['S']}) 1)"
-        return f"(and {inr} (= {a} {d['col']}) (= {b} {want_end}) {no_ub(events)})"
+        # the produced Col/ColMut: stride skip+1 == receiver stride (cursor invariant with num_rows() items)
+        skip_ok = "true"
+        if isinstance(value, Tup) and tup_order[0]:
+            order = tup_order[0]["ColMut" if mutable else "Col"]
+            skip_ok = f"(= (+ {value.fs[order.index('skip')].t} 1) {d['S']})"
+        return f"(and {inr} (= {a} {d['col']}) (= {b} {want_end}) {skip_ok} {no_ub(events)})"
 
     return Kernel(f"col_{recv}{'_mut' if mutable else ''}", "C09", find, build, post,
                   f"{'col_mut' if mutable else 'col'}(c) on {recv}: returns iff c < num_cols, with the slice [c, c+(rows-1)*stride+1)",
@@ -253,6 +258,81 @@ def k_col_index(name, fnsuffix, mutable):
     return Kernel(f"{name.lower()}_{fnsuffix.strip(':')}", "C09", find, build, post,
                   f"{name}[{'mut ' if mutable else ''}idx]: returns iff idx < remaining length, and then denotes element idx*(skip+1)",
                   replay=("b_col_index", name, mutable))
+
+
+# ---- C02: unchecked getters (contract: the caller guarantees an in-range coordinate) ---------------
+
+def k_unchecked(recv, which, mutable):
+    """which: 'cell' -> get_unchecked[_mut]((col,row)), 'row' -> get_unchecked_row[_mut](row)"""
+    tyre = {"owned": r"toodee::TooDee<T>$", "view": r"view::TooDeeView<'_, T>$", "viewmut": r"view::TooDeeViewMut<'_, T>$"}[recv]
+    pre = r"^&mut " if mutable else r"^&(?!mut)"
+    suffix = "::get_unchecked" + ("_row" if which == "row" else "") + ("_mut" if mutable else "")
+
+    def find(fns):
+        return find_fn(fns, suffix, pre + ".*" + tyre, 2, r"^\(usize, usize\)$" if which == "cell" else r"^usize$")
+
+    def build(ctx):
+        r, d = owned(ctx) if recv == "owned" else view(ctx, "TooDeeView" if recv == "view" else "TooDeeViewMut")
+        if which == "cell":
+            cv, c, w = coord(ctx)
+            d.update(col=c, row=w)
+            ctx.assume += [f"(< {c} {d['C']})", f"(< {w} {d['R']})"]
+            return [r, cv], d
+        w = ctx.int("row")
+        d.update(row=w)
+        ctx.assume.append(f"(< {w} {d['R']})")
+        return [r, Int(w)], d
+
+    def post(kind, events, value, d):
+        if kind != "return":
+            return "false"  # with a valid coordinate the getters neither panic nor overflow
+        acc = accesses(events)
+        if len(acc) != 1:
+            return "false"
+        if which == "cell":
+            if acc[0][0] != "access":
+                return "false"
+            return f"(and (= {acc[0][2]} (+ (* {d['row']} {d['S']}) {d['col']})) {no_ub(events)})"
+        if acc[0][0] != "range":
+            return "false"
+        a, b = acc[0][2], acc[0][3]
+        return f"(and (= {a} (* {d['row']} {d['S']})) (= {b} (+ {a} {d['C']})) {no_ub(events)})"
+
+    return Kernel(f"unchecked_{which}_{recv}{'_mut' if mutable else ''}", "C02", find, build, post,
+                  f"{suffix.strip(':')} on {recv}: for an in-range argument it denotes exactly offset row*stride(+col), inside the buffer")
+
+
+# ---- C08 / C09 induction base: the iterators' constructors establish the cursor invariant ----------
+
+def k_rows_ctor(recv, mutable):
+    tyre = {"owned": r"toodee::TooDee<T>$", "view": r"view::TooDeeView<'_, T>$", "viewmut": r"view::TooDeeViewMut<'_, T>$"}[recv]
+    pre = r"^&mut " if mutable else r"^&(?!mut)"
+    suffix = "::rows_mut" if mutable else "::rows"
+
+    def find(fns):
+        return find_fn(fns, suffix, pre + ".*" + tyre, 1)
+
+    def build(ctx):
+        r, d = owned(ctx) if recv == "owned" else view(ctx, "TooDeeView" if recv == "view" else "TooDeeViewMut")
+        return [r], d
+
+    def post(kind, events, value, d):
+        if kind != "return":
+            return "false"
+        order = tup_order[0]["RowsMut" if mutable else "Rows"]
+        v = value.fs[order.index("v")]
+        cols = value.fs[order.index("cols")].t
+        skip = value.fs[order.index("skip_cols")].t
+        if not isinstance(v, Slice):
+            return "false"
+        C, R, S, L = d["C"], d["R"], d["S"], d["L"]
+        # N = R items, each C long, C+skip == stride, the slice is the whole backing buffer
+        return f"(and (= {cols} {C}) (= (+ {cols} {skip}) {S}) (= {v.off} 0) (= {v.len} {L}) (= {L} (ite (= {R} 0) 0 (+ (* {R} {C}) (* (- {R} 1) {skip})))) {no_ub(events)})"
+
+    k = Kernel(f"rows_ctor_{recv}{'_mut' if mutable else ''}", "C08", find, build, post,
+               f"{suffix.strip(':')}() on {recv}: the new iterator is in the cursor state with num_rows() items of num_cols() cells and the receiver's stride (base case of the induction)")
+    k.needs_fields = True
+    return k
 
 
 # ---- C03: view window computation ----------------------------------------------------------------
@@ -460,6 +540,14 @@ def all_kernels():
     ks.append(k_view_dims("view"))
     for w in ("new", "init", "from_vec", "view_new", "viewmut_new"):
         ks.append(k_ctor(w))
+    for recv in ("owned", "view", "viewmut"):
+        for which in ("cell", "row"):
+            ks.append(k_unchecked(recv, which, False))
+            if recv != "view":
+                ks.append(k_unchecked(recv, which, True))
+        ks.append(k_rows_ctor(recv, False))
+        if recv != "view":
+            ks.append(k_rows_ctor(recv, True))
     for t in ("Rows", "RowsMut", "Col", "ColMut"):
         for m in ("next", "next_back", "nth", "nth_back", "size_hint"):
             ks.append(k_cursor(t, m))
